@@ -306,7 +306,8 @@ func vfGenC02Test(t *rapid.T) vfC02Test {
 		tc.NumReq = rapid.IntRange(0, 4).Draw(t, "numReq")
 	}
 	for i, n := 0, rapid.IntRange(1, 3).Draw(t, "nsizes"); i < n; i++ {
-		tc.ReqData = append(tc.ReqData, rapid.SampledFrom([]int{0, 1, 10, 200, 1500, 3000}).Draw(t, "reqSize"))
+		// (70 000: echoed back in an error's RequestInfo detail it makes an end-of-stream message larger than 64 KiB)
+		tc.ReqData = append(tc.ReqData, rapid.SampledFrom([]int{0, 1, 10, 200, 1500, 3000, 0, 1, 10, 200, 1500, 3000, 70000}).Draw(t, "reqSize"))
 	}
 	tc.ReqHeaders = vfGenC02Headers(t, "reqh")
 	tc.RespHeaders = vfGenC02Headers(t, "resph")
@@ -321,7 +322,8 @@ func vfGenC02Test(t *rapid.T) vfC02Test {
 	if rapid.IntRange(0, 2).Draw(t, "hasErr") == 0 {
 		e := &vfC02Err{Code: int32(rapid.IntRange(1, 16).Draw(t, "code")), HasMsg: rapid.IntRange(0, 3).Draw(t, "hasMsg") != 0}
 		if e.HasMsg {
-			e.Msg = rapid.SampledFrom([]string{"", "oops", "100% wrong", "héllo wörld", "line\nbreak", "tab\there", "日本語", "trailing dot."}).Draw(t, "msg")
+			e.Msg = rapid.SampledFrom([]string{"", "oops", "100% wrong", "héllo wörld", "line\nbreak", "tab\there", "日本語", "trailing dot.",
+				"a+b = c", "q?x=1&y=2#frag", "semi;colon,comma", "back\\slash \"quoted\"", "%41 not an escape", "~tilde^caret|pipe"}).Draw(t, "msg")
 		}
 		for i, n := 0, rapid.IntRange(0, 3).Draw(t, "ndetails"); i < n; i++ {
 			e.Details = append(e.Details, rapid.SampledFrom([]string{"header", "payload", "reqinfo"}).Draw(t, "detail"))
